@@ -1,5 +1,5 @@
-\* thorough: histories of three files
-CONSTANTS MaxLines = 2 MaxFiles = 3 Wrap = 0 Leaky = {}
+\* thorough, in addition to Driver_MC_Hist.cfg: histories of three files of one line class each
+CONSTANTS MaxLines = 1 MaxFiles = 3 Wrap = 0 Leaky = {}
 CONSTANTS Kinds <- KindsHist OptSpace <- OptsTwo
 SPECIFICATION Spec
 INVARIANTS FreshStart Independent MachineIsOutcome StatusZeroIffNoError ErrorsDropCode ErrorStatus SummaryAgrees
